@@ -15,8 +15,8 @@ CLAIMED = {
              "image it is (sign extension included); unsupported lengths are refused before any access; 8-byte floats "
              "are bit exact for all 2^64 patterns; NUL-padded ASCII strings round-trip and non-ASCII / NUL-containing / "
              "over-long strings are refused without access; raw access is exact and refuses other buffer lengths. "
-             "PARTIAL: the binary32 conversion (narrow/widen written in integer arithmetic in the model) has no "
-             "round-trip theorem yet; it is validated by correspondence on boundary + random patterns only. Tied to "
+             "4-byte floats: narrow(widen x) = x for every non-NaN binary32 pattern (zeros, subnormals via Z.log2, "
+             "normals, infinities), so f32-representable values round-trip through 4-byte registers bit-exactly. Tied to "
              "/repo by running real nodes built from XML and the extracted model on the same histories.",
         note="Trusted: Coq kernel, model/RegCodec.v + lib/Mem.v validated by correspondence, extraction + driver, "
              "rust/h_genapi (recording Device), tools/c01.py + reghist.py + xmlrender.py (independent Python predicate "
